@@ -15,7 +15,7 @@ import (
 func gen(rt *rapid.T) xdsrig.Plan {
 	c := xdsrig.GenCfg{
 		MaxServers: 1, MinOps: 4, MaxOps: vk.Pick(30, 150),
-		WWatch: 22, WUnwatch: 9, WResp: 34, WBreak: 6, WGrant: 10, WRelease: 8, WAdvance: 6, WRestart: 4, WViv: 3,
+		WWatch: 24, WUnwatch: 6, WResp: 34, WBreak: 6, WGrant: 10, WRelease: 8, WAdvance: 6, WRestart: 4, WViv: 7,
 		UnknownPct: 0, HoldPct: 10, BadPct: 30, RefusePct: 25, IgnoreDel: true,
 	}
 	p := xdsrig.Gen(rt, c)
